@@ -15,7 +15,7 @@ T = {
  "C02": ("wmm", "model_checking", "stateful DFS over interleavings x read-from choices of the real UnboundedSPSCQueue incl. grow/shrink/free",
          "Same explorer over the real unbounded queue with node allocation, switching and freeing tracked by an allocation monitor.",
          "As C01; node memory and buffers freed by the code under test are quarantined until the execution ends so that accesses to retired nodes are detected instead of crashing; every store is checked to be ordered after the previous writer (exactness of the history-based state key).", "4/C02"),
- "C03": ("opx", "model_checking", "preemption-bounded exhaustive schedule enumeration of real frontend threads + ManualBackendWorker under a baton scheduler",
+ "C03": ("opx+wmm", "model_checking", "preemption-bounded exhaustive schedule enumeration of real frontend threads + ManualBackendWorker under a baton scheduler; stateful DFS to closure at atomic-operation granularity (C++11 view semantics) over the real registration / log_statement / BackendWorker::_poll",
          "All schedules (up to the reported preemption bound) of small multi-thread logging scripts against the real backend with tiny queues/buffers and every soft/hard limit in the grid; exactly-once and per-thread order checked at recording sinks.",
          "Frontend calls are atomic steps; backend preemptible at the guarded yield points QUILL_VERIF_YIELD(1..5) and poll boundaries; sequentially consistent interleavings; coverage statement = all schedules with at most k preemptions (k and the number of alternatives beyond it are in the evidence).", "4/C03"),
  "C04": ("seqx", "exploration", "bounded exhaustive enumeration of argument type tuples x value alphabets against call-site formatting",
@@ -24,13 +24,13 @@ T = {
  "C05": ("opx", "model_checking", "preemption-bounded exhaustive schedule enumeration with a virtual clock (stamp/enqueue split)",
          "All schedules of stamp/enqueue/clock-advance/backend steps within the bound; output must be timestamp-ordered whenever every enqueue honoured the grace period.",
          "System clock virtualised by interposition; TSC not controllable; user clock outside the claim.", "4/C05"),
- "C06": ("opx", "model_checking", "preemption-bounded exhaustive schedule enumeration; probe at the instant flush_log() returns",
+ "C06": ("opx+wmm", "model_checking", "preemption-bounded exhaustive schedule enumeration with a probe at the instant flush_log() returns; stateful DFS to closure at atomic-operation granularity over the real flush_log / BackendWorker::_poll",
          "All schedules of loggers, flushers and backend steps within the bound; at flush return every earlier statement must be written and flushed.",
          "As C03; file visibility checked through a recording sink's flush marks and a real FileSink read back.", "4/C06"),
- "C07": ("crashx", "fault_enumeration", "exhaustive enumeration of crash point x fault kind x backend progress in child processes",
+ "C07": ("crashx+wmm", "fault_enumeration", "exhaustive enumeration of crash point x fault kind x backend progress x thread order x buffering limits in child processes; Backend::stop() explored to closure at atomic-operation granularity (C++11 view semantics) against the backend thread's loop",
          "Every statement boundary, every stop/exit/signal kind, with the backend provably stuck after j writes or asleep; log file inspected from outside the dead process.",
          "Backend progress controlled at sink-write granularity by a gated sink; real Backend::start thread.", "4/C07"),
- "C08": ("opx", "model_checking", "preemption-bounded exhaustive schedule enumeration over dropping queues",
+ "C08": ("opx+wmm", "model_checking", "preemption-bounded exhaustive schedule enumeration over dropping queues incl. enumerated operation scripts; drop counter and whole dropping-queue system explored to closure at atomic-operation granularity",
          "All schedules of small scripts on bounded/unbounded dropping queues; result==false iff never delivered; reported drop counts add up.",
          "As C03.", "4/C08"),
  "C09": ("wmm+opx", "model_checking", "exhaustive enumeration of (history, consumed prefix, request size) on the real queues + end-to-end schedules",
@@ -57,7 +57,7 @@ T = {
  "C16": ("seqx+opx", "model_checking", "exhaustive level/threshold/filter/override product and slot-reuse walk (in process) + preemption-bounded schedule enumeration of level/filter changes",
          "Complete product of statement level x logger level x sink threshold x filter set, plus interleavings with changes; written iff passes.",
          "As C03.", "4/C16"),
- "C17": ("opx", "model_checking", "preemption-bounded exhaustive schedule enumeration of log/remove/re-create/get with backend points (AddressSanitizer build at the lower bound, plain build with live asserts at the higher)",
+ "C17": ("opx+seqx+wmm", "model_checking", "preemption-bounded exhaustive schedule enumeration of log/remove/re-create/get with backend points (AddressSanitizer build at the lower bound, plain build with live asserts at the higher); explicit-state BFS over registry histories; stateful DFS to closure at atomic-operation granularity (C++11 view semantics) over real log / remove_logger(_blocking) / re-create vs BackendWorker::_poll",
          "All schedules within the bound; nothing lost, nothing freed in use (ASan), sinks destroyed exactly when unreferenced.",
          "As C03; ASan build.", "4/C17"),
  "C18": ("seqx", "model_checking", "explicit-state BFS to fixpoint on the real BacktraceStorage + exhaustive end-to-end histories through the real macros and backend",
@@ -66,7 +66,7 @@ T = {
  "C19": ("seqx", "model_checking", "exhaustive enumeration of template token sequences x first-use orders x values against an independent fmt-grammar scanner",
          "All templates up to 4 tokens, all first-use orders of up to 3 templates (cache states), value alphabet incl. separators; JSON lines parsed.",
          "Independent scanner follows fmt's replacement-field grammar.", "4/C19"),
- "C20": ("opx", "model_checking", "preemption-bounded exhaustive schedule enumeration + exhaustive sweep of thread counts",
+ "C20": ("opx+wmm", "model_checking", "preemption-bounded exhaustive schedule enumeration + exhaustive sweep of thread counts; stateful DFS to closure at atomic-operation granularity (C++11 view semantics) over real registration / log / thread exit vs BackendWorker::_poll incl. context clean-up",
          "All schedules of short-lived threads vs backend within the bound; deterministic sweep N=0..300+ exits between idle periods; shrink histories.",
          "As C03.", "4/C20"),
 }
@@ -109,10 +109,10 @@ def main():
             "add_only": True,
         },
         "engines": [
-            {"name": "wmm", "path": "engines/wmm", "serves_properties": ["C01", "C02", "C09"], "kind_free_text": "C++11 release/acquire view-based stateful explorer over the real queue headers (atomic shim)"},
+            {"name": "wmm", "path": "engines/wmm", "serves_properties": ["C01", "C02", "C03", "C06", "C07", "C08", "C09", "C17", "C20"], "kind_free_text": "C++11 release/acquire view-based stateful explorer (atomic shim substituted by macro): h_queues over the real queue headers and ThreadContext counters; h_sys over the whole real frontend (registration, log_statement, flush_log, thread exit, logger removal, stop) and the real BackendWorker at atomic-operation granularity"},
             {"name": "opx", "path": "engines/opx", "serves_properties": ["C03", "C05", "C06", "C08", "C09", "C10", "C16", "C17", "C18", "C20"], "kind_free_text": "operation-level schedule explorer: real frontend threads + ManualBackendWorker, fork per execution, futex baton, virtual clock"},
-            {"name": "seqx", "path": "engines/seqx", "serves_properties": ["C04", "C11", "C12", "C13", "C14", "C15", "C18", "C19"], "kind_free_text": "bounded exhaustive enumeration / explicit-state BFS of sequential components against reference oracles"},
-            {"name": "crashx", "path": "engines/crashx", "serves_properties": ["C07"], "kind_free_text": "crash-point x fault x backend-progress enumeration in child processes"},
+            {"name": "seqx", "path": "engines/seqx", "serves_properties": ["C03", "C04", "C11", "C12", "C13", "C14", "C15", "C16", "C17", "C18", "C19"], "kind_free_text": "bounded exhaustive enumeration / explicit-state BFS of sequential components against reference oracles"},
+            {"name": "crashx", "path": "engines/crashx", "serves_properties": ["C07"], "kind_free_text": "crash-point x fault x backend-progress x thread-order x flusher x buffering-limit enumeration in child processes"},
         ],
         "checks": checks,
         "not_applicable": na,
